@@ -167,8 +167,17 @@ func (sr *schedRun) noteSubmit(hasDeps bool) {
 
 //go:norace
 func (sr *schedRun) emit(r *runner, s int, st scheduler.State) {
-	if sr.nstates < len(sr.states) {
-		sr.states[sr.nstates] = stateRep{St: st, Submitted: sr.submitted, SubmittedDeps: sr.submittedDeps, AfterRet: sr.returned, Seq: r.sim.Seq}
+	rep := stateRep{St: st, Submitted: sr.submitted, SubmittedDeps: sr.submittedDeps, AfterRet: sr.returned, Seq: r.sim.Seq}
+	if sr.nstates < len(sr.states)-16 {
+		sr.states[sr.nstates] = rep
+		sr.nstates++
+		return
+	}
+	// beyond the recording capacity (very long runs): keep what cannot be right on its face
+	ex := st.Pending - st.Ready - st.Waiting
+	if sr.nstates < len(sr.states) && (st.Pending < 0 || st.Ready < 0 || st.Waiting < 0 || st.IdleWorkers < 0 || ex < 0 || ex > st.Concurrency ||
+		st.IdleWorkers != st.Concurrency-ex || st.Pending > rep.Submitted || st.Waiting > rep.SubmittedDeps || rep.AfterRet) {
+		sr.states[sr.nstates] = rep
 		sr.nstates++
 	}
 }
@@ -458,7 +467,7 @@ func Exec(t *testing.T, d *Desc, replay bool, keepTrace bool, states map[uint64]
 	maxFreq := 0
 	for i := range d.Scheds {
 		sd := &d.Scheds[i]
-		sr := &schedRun{d: sd, limit: d.Limit(sd), token: new(int), states: make([]stateRep, 4096),
+		sr := &schedRun{d: sd, limit: d.Limit(sd), token: new(int), states: make([]stateRep, 4096+16),
 			jdone: make([]<-chan struct{}, len(sd.Jobs)), jcancel: make([]context.CancelFunc, len(sd.Jobs))}
 		shared := &jobErr{s: i, j: -1}
 		for j := range sd.Jobs {
